@@ -41,6 +41,7 @@ pub const ENV_KEEP_GOING: &str = "REDO_KEEP_GOING";
 const ENV_LOCKS_BROKEN: &str = "REDO_LOCKS_BROKEN";
 pub const ENV_LOG: &str = "REDO_LOG";
 pub(crate) const ENV_LOG_INODE: &str = "REDO_LOG_INODE";
+pub const ENV_NO_DEPS: &str = "REDO_NO_DEPS";
 pub const ENV_NO_OOB: &str = "REDO_NO_OOB";
 pub const ENV_PRETTY: &str = "REDO_PRETTY";
 pub(crate) const ENV_PWD: &str = "REDO_PWD";
@@ -77,6 +78,7 @@ pub struct Env {
     pub(crate) runid: Option<i64>,
     pub(crate) unlocked: bool,
     pub(crate) no_oob: bool,
+    no_deps: bool,
 
     /// Holds the temporary symlink directory stored in the PATH, if needed.
     _redo_links_dir: Option<Rc<TempDir>>,
@@ -261,6 +263,7 @@ impl Env {
             },
             unlocked: get_bool(ENV_UNLOCKED),
             no_oob: get_bool(ENV_NO_OOB),
+            no_deps: get_bool(ENV_NO_DEPS),
             _redo_links_dir: None,
         };
         if v.depth.contains(|c| c != ' ') {
@@ -272,6 +275,7 @@ impl Env {
         // not inheritable by subprocesses
         env::set_var(ENV_UNLOCKED, "");
         env::set_var(ENV_NO_OOB, "");
+        env::set_var(ENV_NO_DEPS, "");
         Ok(v)
     }
 
@@ -377,6 +381,14 @@ impl Env {
     #[inline]
     pub fn is_unlocked(&self) -> bool {
         self.unlocked
+    }
+
+    /// Reports whether the targets named to `redo-ifchange` are not to be recorded
+    /// as dependencies of `REDO_TARGET` (they are rebuilt on behalf of another
+    /// target: the first step of `redo-unlocked`).
+    #[inline]
+    pub fn no_deps(&self) -> bool {
+        self.no_deps
     }
 
     /// If file locking is broken, update the environment accordingly.
